@@ -417,7 +417,7 @@ impl Group for Chain {
     }
     fn generate(&self, ctx: &Ctx, rng: &mut Rng) -> Vec<String> {
         let n = if ctx.mode == Mode::Quick { 10 } else { 150 };
-        (0..n)
+        let mut v: Vec<String> = (0..n)
             .map(|_| {
                 let rules = list((0..rng.range(0, 3)).map(|_| {
                     let (named, undef) = gen_rule(rng);
@@ -425,7 +425,16 @@ impl Group for Chain {
                 }));
                 format!("c14.chain {} {} {}", rules.replace(' ', ""), hex(b"Srv/1"), b01(rng.chance(1, 2)))
             })
-            .collect()
+            .collect();
+        // exact rules beside wildcards that cover the same paths (the requests include query strings on those paths)
+        for pats in [&["/a/b", "/a/*", "/n"][..], &["/*", "/n", "/a/b"][..], &["/a/b"][..]] {
+            let rules = list(pats.iter().map(|pat| {
+                let (named, undef) = gen_rule(rng);
+                format!("{}|{named}|{undef}", hex(pat.as_bytes()))
+            }));
+            v.push(format!("c14.chain {} {} {}", rules.replace(' ', ""), hex(b"Srv/1"), b01(rng.chance(1, 2))));
+        }
+        v
     }
     fn driver_line(&self, _line: &str) -> String {
         // the expected values are computed per response inside run_impl through `model_lines`; the group is
@@ -504,6 +513,11 @@ impl Group for Chain {
             ("HEAD /other HTTP/1.1\r\nhost: localhost\r\n\r\n".into(), true, "/other", None),
             ("GET /a/own HTTP/1.1\r\nhost: localhost\r\n\r\n".into(), false, "/a/own", Some("origin")),
             ("GET /a/./b HTTP/1.1\r\nhost: localhost\r\n\r\n".into(), false, "/a/./b", None),
+            // the rule is chosen by the path: a query string changes nothing (exact rules included)
+            ("GET /a/b?tab=users HTTP/1.1\r\nhost: localhost\r\n\r\n".into(), false, "/a/b", None),
+            ("GET /a/b? HTTP/1.1\r\nhost: localhost\r\n\r\n".into(), false, "/a/b", None),
+            ("HEAD /a/x?/a/b HTTP/1.1\r\nhost: localhost\r\n\r\n".into(), true, "/a/x", None),
+            ("GET /n?x=1 HTTP/1.1\r\nhost: localhost\r\n\r\n".into(), false, "/n", None),
             ("GET /n HTTP/1.1\r\nhost: localhost\r\n\r\n".into(), false, "/n", None),
             ("GET /n HTTP/1.1\r\nhost: localhost\r\n\r\n".into(), false, "/n", None),
             ("GET /nc HTTP/1.1\r\nhost: localhost\r\n\r\n".into(), false, "/nc", None),
